@@ -267,7 +267,7 @@ def r3_one_outstanding(ctx, F):
             b = F.body(path)
             ctx.touched(b)
             sends = b.calls_to('Out::send')
-            if len(sends) < 2:
+            if len(sends) < 1:
                 raise AnchorMissing('%s: client sends' % path)
             # guards: PartialEq::eq between something derived from msg (arg 5) and the state's awaiting
             guards = []
